@@ -28,7 +28,7 @@ var c9types = []string{"int", "byte", "float64", "string"}
 
 type c9cfg struct {
 	Params   []int `json:"params"`
-	Variadic int   `json:"variadic"` // 0 none, 1 ...int, 2 ...string
+	Variadic int   `json:"variadic"` // 0 none, 1 ...int, 2 ...string, 3 ...float64
 	Extra    int   `json:"extra"`    // number of variadic arguments passed (0..2), 3 = spread of a 2-element slice
 	Rets     int   `json:"rets"`
 	Kind     int   `json:"kind"` // 0 function, 1 method, 2 function literal
@@ -91,6 +91,8 @@ func c9render(c c9cfg, id int) (decls string, want string) {
 		vtype = "int"
 	case 2:
 		vtype = "string"
+	case 3:
+		vtype = "float64"
 	}
 	pre := ""
 	if vtype != "" {
@@ -99,9 +101,12 @@ func c9render(c c9cfg, id int) (decls string, want string) {
 		n := c.Extra
 		if c.Extra == 3 {
 			n = 2
-			if vtype == "int" {
+			switch vtype {
+			case "int":
 				pre = "\txs := []int{61, 62}\n"
-			} else {
+			case "float64":
+				pre = "\txs := []float64{61, 62}\n"
+			default:
 				pre = "\txs := []string{\"x1\", \"x2\"}\n"
 			}
 			args = append(args, "xs...")
@@ -114,6 +119,12 @@ func c9render(c c9cfg, id int) (decls string, want string) {
 				}
 				shows = append(shows, fmt.Sprintf("v[%d]+1", k))
 				wantIn = append(wantIn, fmt.Sprint(62+k))
+			} else if vtype == "float64" {
+				if c.Extra != 3 {
+					args = append(args, fmt.Sprint(61+k)) // an untyped constant: must become a float64 inside the slice
+				}
+				shows = append(shows, fmt.Sprintf("v[%d]/2", k))
+				wantIn = append(wantIn, fmt.Sprint(float64(61+k)/2))
 			} else {
 				if c.Extra != 3 {
 					args = append(args, fmt.Sprintf("\"x%d\"", k+1))
@@ -249,6 +260,8 @@ func c9noSpread(args []string, vtype string) []string {
 	if len(out) > 0 && out[len(out)-1] == "xs..." {
 		if vtype == "int" {
 			out[len(out)-1] = "[]int{61, 62}..."
+		} else if vtype == "float64" {
+			out[len(out)-1] = "[]float64{61, 62}..."
 		} else {
 			out[len(out)-1] = "[]string{\"x1\", \"x2\"}..."
 		}
@@ -278,6 +291,8 @@ func c9fwdCall(c c9cfg, sfx string, args []string, pre string) string {
 		vt = "int"
 	case 2:
 		vt = "string"
+	case 3:
+		vt = "float64"
 	}
 	a := strings.Join(c9noSpread(args, vt), ", ")
 	if c.Kind == 1 {
@@ -343,7 +358,7 @@ func c9configs(thorough bool) []c9cfg {
 	}
 	var out []c9cfg
 	for _, s := range sigs {
-		for variadic := 0; variadic <= 2; variadic++ {
+		for variadic := 0; variadic <= 3; variadic++ {
 			for extra := 0; extra <= 3; extra++ {
 				for rets := 0; rets <= 3; rets++ {
 					for kind := 0; kind < 3; kind++ {
@@ -403,11 +418,50 @@ func c9templates() (valid [][2]string, mismatch []string) {
 	add("func mix(a byte, rest ...byte) byte {\n\tfor _, r := range rest {\n\t\ta += r\n\t}\n\treturn a\n}\n\n",
 		"\tfmt.Println(mix(200), mix(200, 100), mix(1, 255, 255))\n",
 		"200 44 255\n")
+	add("func half(xs ...float64) float64 {\n\tt := 0.0\n\tfor _, x := range xs {\n\t\tt += x / 2\n\t}\n\treturn t\n}\n\nfunc (t *T) Half(a int, xs ...float64) float64 {\n\treturn xs[0]/2 + xs[1]/2 + float64(a)\n}\n\n",
+		"\tx := 3.0\n\tt := &T{}\n\tfmt.Println(half(x, 1), half(1, x), half(1, 3), half(x, x), t.Half(1, x, 1), t.Half(1, 1, 3))\n",
+		"2 2 2 3 3 3\n")
 	for _, depth := range []int{1, 2, 3, 10, 100, 1000, 5000} {
 		add("func down(n int, a int, b string) (int, string) {\n\tif n == 0 {\n\t\treturn a, b\n\t}\n\tx, y := down(n-1, a+1, b)\n\treturn x + 1, y\n}\n\n",
 			fmt.Sprintf("\tx, y := down(%d, 1, \"s\")\n\tfmt.Println(x, y)\n", depth), fmt.Sprintf("%d s\n", 1+2*depth))
 		add("func (t *T) Down(n int, a float64) float64 {\n\tif n == 0 {\n\t\treturn a\n\t}\n\treturn t.Down(n-1, a+0.5)\n}\n\n",
 			fmt.Sprintf("\tt := &T{}\n\tfmt.Println(t.Down(%d, 0))\n", depth), fmt.Sprintf("%v\n", float64(depth)*0.5))
+	}
+	// return f() forwarding inside a function literal whose result count differs from the enclosing function's
+	retT := []string{"int", "string", "float64"}
+	sigOf := func(n int) string {
+		switch n {
+		case 0:
+			return ""
+		case 1:
+			return " int"
+		}
+		return " (" + strings.Join(retT[:n], ", ") + ")"
+	}
+	for outer := 0; outer <= 3; outer++ {
+		for inner := 1; inner <= 3; inner++ {
+			vals := []string{"1", "\"s\"", "2.5"}
+			var lhs []string
+			for k := 0; k < inner; k++ {
+				lhs = append(lhs, fmt.Sprintf("v%d", k))
+			}
+			decl := fmt.Sprintf("func src%d()%s {\n\treturn %s\n}\n\nfunc outer()%s {\n\tg := func()%s {\n\t\treturn src%d()\n\t}\n\t%s := g()\n\tfmt.Println(%s)\n", inner, sigOf(inner), strings.Join(vals[:inner], ", "), sigOf(outer), sigOf(inner), inner, strings.Join(lhs, ", "), strings.Join(lhs, ", "))
+			if outer > 0 {
+				decl += "\treturn " + strings.Join([]string{"7", "\"o\"", "0.5"}[:outer], ", ") + "\n"
+			}
+			decl += "}\n\n"
+			call := "\touter()\n"
+			w := strings.Join([]string{"1", "s", "2.5"}[:inner], " ") + "\n"
+			if outer > 0 {
+				var ol []string
+				for k := 0; k < outer; k++ {
+					ol = append(ol, fmt.Sprintf("o%d", k))
+				}
+				call = "\t" + strings.Join(ol, ", ") + " := outer()\n\tfmt.Println(" + strings.Join(ol, ", ") + ")\n"
+				w += strings.Join([]string{"7", "o", "0.5"}[:outer], " ") + "\n"
+			}
+			add(decl, call, w)
+		}
 	}
 	// goatlang-only: arity and result-count mismatches must be errors
 	mm := func(decls, body string) { mismatch = append(mismatch, hdr+decls+"func Main() {\n"+body+"}\n") }
@@ -426,7 +480,7 @@ func c9templates() (valid [][2]string, mismatch []string) {
 func c09run(r *report.Run) {
 	thorough := r.Tier == "thorough"
 	cfgs := c9configs(thorough)
-	r.Rule(fmt.Sprintf("call configurations = signatures (all up to arity %d over {int, byte, float64, string}, four rotated representatives for each larger arity up to 5) x variadic tail {none, ...int, ...string} x {0, 1, 2 extra arguments, spread slice} x result count 0..3 x callee kind {function, method, function literal} x 8 call forms, constants as arguments and results so that adoption of the declared type shows (byte parameter 200 printed +100 must give 44); templates for the remaining types in every position, variadic slices kept by the callee, recursion depths 1..5000 through functions and methods, and 8 arity/result mismatches; non-trivial = configuration with at least one parameter or result", map[bool]int{false: 2, true: 3}[thorough]))
+	r.Rule(fmt.Sprintf("call configurations = signatures (all up to arity %d over {int, byte, float64, string}, four rotated representatives for each larger arity up to 5) x variadic tail {none, ...int, ...string, ...float64} x {0, 1, 2 extra arguments, spread slice} x result count 0..3 x callee kind {function, method, function literal} x 8 call forms, constants as arguments and results so that adoption of the declared type shows (byte parameter 200 printed +100 must give 44); templates for the remaining types in every position, variadic slices kept by the callee, recursion depths 1..5000 through functions and methods, and 8 arity/result mismatches; non-trivial = configuration with at least one parameter or result", map[bool]int{false: 2, true: 3}[thorough]))
 	r.Assume("expected output is what the generator planted; every Go-valid program of the run is also compiled and run by the Go toolchain", "f(g()) forwarding of a multi-value call into an argument list is outside the supported subset")
 	r.Set("configurations", len(cfgs))
 	cache := oracle.OpenCache("c09")
